@@ -69,12 +69,44 @@ class E:
         return f"E({self.v})"
 
 
+class T(E):
+    """A twin: all twins of a script are EQUAL (``==``, same hash) but each is its own object with its own identity ``uid`` -
+    like two inotify records of the same change.  The queue must tell them apart by identity."""
+    __slots__ = ("uid",)
+
+    def __init__(self, v, uid):
+        self.v = v
+        self.uid = uid
+
+    def __eq__(self, other):
+        return isinstance(other, T) and other.v == self.v
+
+    def __hash__(self):
+        return hash(("T", self.v))
+
+    def __repr__(self):
+        return f"T({self.v}#{self.uid})"
+
+
 def _val(x):
+    if isinstance(x, T):
+        return x.uid
     return x.v if isinstance(x, E) else x
 
 
 class Rig:
     ephemeral = False
+    twins = False
+
+    def _mk(self, eid):
+        if self.twins:
+            return T(0, eid)
+        return E(eid) if self.ephemeral else eid
+
+    def _pred(self, target):
+        if self.twins:
+            return lambda e: _val(e) == target
+        return lambda e: e == target
 
     def __init__(self, delay=D, instr: Instr | None = None):
         from watchdog.utils.delayed_queue import DelayedQueue
@@ -183,14 +215,14 @@ class Rig:
         eid = self.next_id
         self.next_id += 1
         self.inserted[eid] = (self.clock.now, delayed)
-        rec = self.do("put", lambda: self.q.put(E(eid) if self.ephemeral else eid, delay=delayed), **kw)
+        rec = self.do("put", lambda: self.q.put(self._mk(eid), delay=delayed), **kw)
         rec["elem"] = eid
         rec["delayed"] = delayed
         self.put_rec[eid] = rec
         return eid
 
     def remove(self, target, **kw):
-        rec = self.do("remove", lambda: self.q.remove(lambda e: e == target), **kw)
+        rec = self.do("remove", lambda: self.q.remove(self._pred(target)), **kw)
         rec["target"] = target
         return rec
 
@@ -204,10 +236,10 @@ class Rig:
         self.put_rec[eid] = prec
 
         def fn():
-            x = self.q.remove(lambda e: e == target)
+            x = self.q.remove(self._pred(target))
             v = _val(x)
             del x
-            self.q.put(E(eid) if self.ephemeral else eid, delay=True)
+            self.q.put(self._mk(eid), delay=True)
             prec["seq_call"] = next(_SEQ)
             prec["vt_ret"] = self.clock.now
             prec["seq_ret"] = next(_SEQ)
@@ -271,6 +303,9 @@ def run_script(b: Batch, script, hold_plan=None, instr=None, ctx=None):
     ('adv',dt) ('close',)"""
     rig = Rig(instr=instr)
     rig.ephemeral = bool((ctx or {}).get("ephemeral"))
+    rig.twins = bool((ctx or {}).get("twins"))
+    if rig.twins:
+        b.count("scripts_with_equal_but_distinct_elements")
     if rig.ephemeral:
         b.count("scripts_with_ephemeral_elements")
     concurrent = hold_plan is not None
@@ -622,7 +657,7 @@ def run_batch(spec):
             if b.expired():
                 break
             s = rand_script(r, r.randint(5, 30))
-            run_script(b, s, ctx={"ephemeral": n % 3 == 1})
+            run_script(b, s, ctx={"ephemeral": n % 3 == 1, "twins": n % 3 == 2})
             if n % 25 == 7:
                 # directed: the consumer waits on a delayed head; the head is removed and gone; a brand-new delayed element
                 # takes its place; the old head's delay ends - the newcomer must not come out before its own delay
@@ -631,6 +666,10 @@ def run_batch(spec):
                                ctx={"ephemeral": True})
                     run_script(b, [("put", True), ("get",), ("adv", D / 2 - gap / 2), ("replace", 0), ("adv", D / 2 + EPS), ("adv", D)], ctx={"ephemeral": True})
                 run_script(b, [("put", False), ("put", True), ("remove_raise",), ("put", False), ("get",), ("remove", 0), ("adv", D)])
+                # the head the consumer sleeps on is removed and an EQUAL, distinct element takes its place
+                for gap in (EPS, D / 2, D - EPS):
+                    run_script(b, [("put", True), ("adv", gap), ("put", True), ("get",), ("adv", (D - gap) / 2), ("remove", 0), ("adv", D), ("get",), ("adv", D)], ctx={"twins": True})
+                    run_script(b, [("put", True), ("get",), ("adv", gap), ("put", True), ("remove", 0), ("adv", D - gap), ("adv", gap + EPS), ("get",), ("adv", D)], ctx={"twins": True})
                 run_script(b, [("put", True), ("remove_raise",), ("adv", D), ("get",), ("put", True), ("close",)])
             if n == 0:
                 b.sample({"script": [list(x) for x in s], "mode": "random"})
